@@ -13,7 +13,7 @@ K = lambda name, file, fn: dict(name=name, target=("oxidize-pdf-core/src/" + fil
 
 PROPS = {
     "C01": dict(
-        verus=["tokenizer", "runlength", "gss", "xrefstream", "glyf", "guards", "predictor", "pngrows", "flatten", "bounded", "asciihex", "ascii85", "rotate", "pngunfilter", "cmaprange", "readlimited", "charstring"],
+        verus=["tokenizer", "runlength", "gss", "xrefstream", "glyf", "guards", "predictor", "pngrows", "flatten", "bounded", "asciihex", "ascii85", "rotate", "pngunfilter", "cmaprange", "readlimited", "charstring", "lzw"],
         standins=["a85hex", "hostile-inputs"],
         kani=[K("c01_hex_digit_value", "parser/filters.rs", "hex_digit_value"),
               K("c01_calculate_offset_9_bytes_no_panic", "text/cmap.rs", "calculate_offset")],
@@ -127,10 +127,11 @@ PROPS = {
         not_decided="CMap tokenizer/parser, bfrange array form, code-space rejection and the ToUnicode builder are covered only by the bounded stand-in cmap; CodeRange::contains is proved numeric for 1..4-byte codes (Kani); the inline range-membership test of CMap::map (the same slice comparison) has no contract of its own",
     ),
     "C07": dict(
-        verus=["runlength", "pngrows", "predictor", "bounded", "asciihex", "ascii85", "chainorder"],
+        verus=["runlength", "pngrows", "predictor", "bounded", "asciihex", "ascii85", "chainorder", "lzw"],
         standins=["a85hex-roundtrip", "filters-roundtrip"],
-        kani=[K("c07_paeth_predictor_png_spec", "parser/filters.rs", "paeth_predictor")],
-        not_decided="LZW code-width schedule and Flate (dependency) are covered only by the bounded stand-in filters-roundtrip; CCITT/JBIG2/DCT; TIFF predictor 2 is a known finding (passed through undecoded)",
+        kani=[K("c07_paeth_predictor_png_spec", "parser/filters.rs", "paeth_predictor"),
+              K("c07_lzw_read_bits", "parser/filters.rs", "LzwBitReader::read_bits")],
+        not_decided="LZW: the body of decode_lzw_with_limit is proved equal to the recursive specification lzw_run (ISO 32000-1 7.4.4.2 / TIFF 6.0: MSB-first codes, 9..12 bit schedule with and without EarlyChange, clear-table, EOD, KwKwK case) for every input; the bit reader's contract is discharged by Kani on a 4-byte window (translation over byte_pos is argued, not proved); the reading of /EarlyChange from the parameter dictionary (Option combinators) is outside the block. Flate is a dependency (stand-in filters-roundtrip only); CCITT/JBIG2/DCT; TIFF predictor 2 is a known finding (passed through undecoded)",
     ),
     "C08": dict(
         verus=["runlength", "bounded", "streamlimit", "asciihex", "ascii85", "readlimited"],
